@@ -45,6 +45,9 @@ structure Facts where
   advanceDropsPending : Bool
   /-- `advance_to_file` does not touch `cancelled` (if it mentions it, pessimistically: it clears it) -/
   advanceKeepsCancel : Bool
+  /-- `cancel` writes the reason only under `if guard.cancelled.is_none()` (any other guard — a test on the
+  stored string, no guard — is read pessimistically: a later `cancel` replaces the stored reason) -/
+  cancelFirstWins : Bool
   deriving DecidableEq, Repr
 
 structure Chunk where
@@ -179,7 +182,7 @@ def step (f : Facts) (m : OvMode) (s : State) (op : Op) : State × Ret :=
   | .cancel r =>
     (match s.cancelled with
      | none => { s with cancelled := some r }
-     | some _ => s, .unit)
+     | some _ => if f.cancelFirstWins then s else { s with cancelled := some r }, .unit)
   | .advance n =>
     ({ s with file := n, sent := 0, acked := 0, chunks := [], bytesHeld := 0,
               pending := if f.advanceDropsPending then none else s.pending,
@@ -241,8 +244,27 @@ def stampEffect : Op → Ret → Bool × Bool
   | .requestResume _ _ _, .resumeOk _ => (true, true)
   | _, _ => (false, false)
 
+/-! Cancel reasons are opaque values: the model never inspects one, it only stores the first and hands it
+back (`step` is parametric in them — `Props/C11.lean`, `reasons_opaque`). A reason is a `Nat` token per
+distinct string; token `k < 10^9+7` stands for the string `r<k>`, and the harness's table of edge strings is: -/
+
 /-- the reason string the watchdog passes to `cancel` ("transfer idle"), as a reason token -/
 def idleReason : Nat := 1000000007
+/-- the empty string `""` (a wire cancel without a `reason`) -/
+def emptyReason : Nat := 1000000008
+/-- blanks only: `" \t\n"` -/
+def blankReason : Nat := 1000000009
+/-- 65537 times `x` -/
+def longReason : Nat := 1000000010
+/-- non-ASCII, including a 4-byte scalar: `"отмена ✂ 取消 🛑"` -/
+def unicodeReason : Nat := 1000000011
+/-- a single NUL -/
+def nulReason : Nat := 1000000012
+/-- `" Transfer Idle "`: the watchdog's reason up to case and surrounding blanks -/
+def paddedIdleReason : Nat := 1000000013
+/-- the edge reasons, in the order of the harness's `EDGE_REASONS` -/
+def edgeReasons : List Nat :=
+  [idleReason, emptyReason, blankReason, longReason, unicodeReason, nulReason, paddedIdleReason]
 
 /-- What the watchdog does with one transfer of its snapshot at one tick: `is_cancelled()` → skip; otherwise
 read the time stamps and, if the environment says the transfer is idle, call `cancel("transfer idle")`.
